@@ -115,6 +115,79 @@ class CheckFitDesc(Contract):
             cx.oblige(f"post.options_per_dimension.{i}", r[i].get("method") == want[0] and r[i].get("weights", "ABSENT") == want[1], "post", "options of dimension i (defaults mle / None)")
 
 
+
+def _native_fit_setup(co, with_zeros=True):
+    """real model of the given structure whose distributions are replaced by recorders; data with distinct columns,
+    zeros and ties (observations every fit must receive unchanged)"""
+    import numpy as np
+    import virocon
+    from contracts.jointmodel import native_model
+    m = native_model(list(co))
+
+    class Rec:
+        def __init__(self):
+            self.fits = []
+
+        def fit(self, *a, **k):
+            self.fits.append((a, k))
+    m.distributions = [Rec() for _ in co]
+    m.interval_slicers = [virocon.NumberOfIntervalsSlicer(3, min_n_points=1) for _ in co]
+    rng = np.random.default_rng(11)
+    data = rng.uniform(0.2, 6.0, size=(60, len(co))) * (1.0 + np.arange(len(co)))
+    if with_zeros:
+        data[::7, :] = 0.0
+        data[3::11, 1:] = 0.0
+    return m, data
+
+
+def replay_ghm_fit(co):
+    import numpy as np
+    m, data = _native_fit_setup(co)
+    fd = [{"method": f"method{i}", "weights": (f"weights{i}" if i % 2 == 0 else None)} for i in range(len(co))]
+    keep = data.copy()
+    m.fit(data, fd)
+    bad = []
+    if not np.array_equal(data, keep):
+        bad.append("the data were modified")
+    for i, c in enumerate(co):
+        d = m.distributions[i]
+        if len(d.fits) != 1:
+            bad.append(f"dimension {i} fitted {len(d.fits)} times")
+            continue
+        a = list(d.fits[0][0])
+        if c is None:
+            if not (len(a) == 3 and np.array_equal(np.asarray(a[0]), keep[:, i])):
+                bad.append(f"dimension {i} is not fitted to column {i} of the data")
+            if len(a) == 3 and (a[1], a[2]) != (fd[i]["method"], fd[i]["weights"]):
+                bad.append(f"dimension {i} fitted with {a[1:]}")
+        else:
+            masks, refs, bounds = m.interval_slicers[c].slice_(keep[:, c])
+            if len(a) != 5 or len(a[0]) != len(masks) or any(not np.array_equal(np.asarray(x), keep[mk, i]) for x, mk in zip(a[0], masks)):
+                bad.append(f"dimension {i} is not fitted to the observations of column {i} in the intervals of column {c}")
+            if len(a) == 5 and (a[3], a[4]) != (fd[i]["method"], fd[i]["weights"]):
+                bad.append(f"dimension {i} fitted with {a[3:]}")
+    return {"confirmed": bool(bad), "detail": f"structure {list(co)}, 60 observations with zeros and ties: " + ("; ".join(bad) or "every dimension is fitted to its own observations and options"),
+            "inputs": {"conditional_on": list(co), "n": 60}}
+
+
+def replay_split(nd, dist_idx, cond):
+    import numpy as np
+    co = [None] + [0] * (nd - 1)
+    m, data = _native_fit_setup(co)
+    keep = data.copy()
+    dd, refs, bounds = m._split_in_intervals(data, dist_idx, cond)
+    masks, refs2, bounds2 = m.interval_slicers[cond].slice_(keep[:, cond])
+    bad = []
+    if len(dd) != len(masks) or any(not np.array_equal(np.asarray(x), keep[mk, dist_idx]) for x, mk in zip(dd, masks)):
+        bad.append(f"interval data sizes {[len(x) for x in dd]} but the slicer's masks select {[int(mk.sum()) for mk in masks]} observations of column {dist_idx}")
+    if not np.array_equal(np.asarray(refs, dtype=float), np.asarray(refs2, dtype=float)):
+        bad.append("reference values differ from the slicer's")
+    if not np.array_equal(data, keep):
+        bad.append("the data were modified")
+    return {"confirmed": bool(bad), "detail": f"n_dim={nd}, dist_idx={dist_idx}, conditioning_idx={cond}, 60 observations with zeros and ties: " + ("; ".join(bad) or "interval data are exactly the masked observations"),
+            "inputs": {"n_dim": nd, "dist_idx": dist_idx, "conditioning_idx": cond}}
+
+
 def _fit_cases(dims=(2, 3)):
     out = []
     for co in structures(dims):
@@ -131,6 +204,11 @@ def _fit_cases(dims=(2, 3)):
 class GhmFit(Contract):
     """fit: dimension i is fitted with ITS OWN method / weights; an unconditional variable to column i of the data;
     a conditional one to the per-interval data obtained by slicing the declared conditioning column"""
+
+    def replay(self, case, ob):
+        if case["data"] != "ok":
+            return None
+        return replay_ghm_fit(case["co"])
 
     def case_label(self, case):
         return f"conditional_on={structure_label(case['co'])},data={case['data']}"
@@ -226,6 +304,9 @@ class SlicerRec(Opaque):
 class SplitInIntervals(Contract):
     """the slicer of the CONDITIONING dimension slices the conditioning column; interval j's data are the
     observations of variable dist_idx at exactly the input positions its mask marks; nothing is cached on the model"""
+
+    def replay(self, case, ob):
+        return replay_split(case["nd"], case["dist_idx"], case["cond"])
 
     def case_label(self, case):
         return f"n_dim={case['nd']},dist_idx={case['dist_idx']},conditioning_idx={case['cond']},n_intervals={case['m']}"
